@@ -64,7 +64,7 @@ pub struct Invocation {
 }
 
 fn workspace_strategy() -> impl Strategy<Value = Workspace> {
-    (1usize..4, proptest::collection::vec(0usize..3, 4), 0usize..4, proptest::collection::vec(proptest::collection::vec((any::<u16>(), 0u8..4), 0..5), 3), 0usize..3).prop_map(|(nrust, extra, ncomp, depspec, others)| {
+    (1usize..4, proptest::collection::vec(0usize..3, 4), prop_oneof![1 => Just(0usize), 5 => 1usize..4], proptest::collection::vec(proptest::collection::vec((any::<u16>(), 0u8..4), 0..5), 3), 0usize..3).prop_map(|(nrust, extra, ncomp, depspec, others)| {
         let rust: Vec<RustBp> = (0..nrust)
             .map(|i| RustBp {
                 id: if i % 2 == 0 { format!("acme/rust-{i}") } else { format!("rust{i}") },
@@ -76,7 +76,12 @@ fn workspace_strategy() -> impl Strategy<Value = Workspace> {
         let composites: Vec<Composite> = (0..ncomp.min(3))
             .map(|c| {
                 let avail = nrust + c;
-                let deps = depspec[c]
+                let mut spec = depspec[c].clone();
+                // the first composite always has at least one libcnb: dependency (the interesting class)
+                if c == 0 && !spec.iter().any(|(_, k)| *k <= 1) {
+                    spec.insert(0, (7, 0));
+                }
+                let deps = spec
                     .iter()
                     .map(|(r, kind)| match kind {
                         0 | 1 => CDep::Libcnb(pick_idx(*r, avail)),
